@@ -34,6 +34,13 @@ func accountsTree(r *Rng) (ops []fsOp, dirs, files, links, missing []string) {
 	mk("usr/bin", 0o755)
 	mk("srv/data/sub", Pick(r, []int{0o755, 0o750}))
 	mk("opt", 0o755)
+	deep := r.Chance(45)
+	if deep {
+		// a deep tree with links inside it (C13.recursive_subtree: every entry below a recursive root, to any depth)
+		mk("srv/data/sub/deep/er/most", 0o755)
+		ops = append(ops, fsOp{K: "writefile", P: "srv/data/sub/deep/er/leaf", D: "leaf", N: 0o640})
+		ops = append(ops, accountsWh("srv/data/sub/deep/pkgleaf", 0o644, "pkg-leaf", "pb"))
+	}
 	ops = append(ops, accountsWh("usr/bin/tool", 0o755, "#!/bin/sh\n", "pa"))
 	ops = append(ops, accountsWh("etc/conf", 0o644, "k=v\n", "pa"))
 	ops = append(ops, accountsWh("srv/data/f1", 0o640, "data-one", "pb"))
@@ -69,6 +76,13 @@ func accountsTree(r *Rng) (ops []fsOp, dirs, files, links, missing []string) {
 	if r.Chance(30) {
 		sl("/opt", "srv/data/sub/dlink") // a directory link inside a tree
 	}
+	if deep && r.Chance(60) {
+		sl("../../f2", "srv/data/sub/deep/er/uplink") // lexical dot-dot through the traversed prefix
+	}
+	if deep && r.Chance(60) {
+		sl("/srv/data/sub/deep", "opt/deeplink") // a symlinked parent several levels above a deep tree
+		missing = append(missing, "opt/deeplink/er/new/dir", "opt/deeplink/fresh")
+	}
 	if r.Chance(40) {
 		ops = append(ops, fsOp{K: "link", Q: "etc/conf", P: "etc/conf.hl"})
 		files = append(files, "etc/conf.hl")
@@ -79,7 +93,7 @@ func accountsTree(r *Rng) (ops []fsOp, dirs, files, links, missing []string) {
 	if r.Chance(30) {
 		ops = append(ops, fsOp{K: "chmod", P: Pick(r, []string{"srv/data/f1", "opt", "etc/conf"}), N: Pick(r, []int{0o400, 0o711, 0o4755})})
 	}
-	missing = []string{"made", "made/a/b", "srv/data/new", "opt/x/y/z", "lnk/viarel", "alnk/sub/viaabs", "alnk/newdir/f", "etc/new.conf", "dang/x", "flnk/x", "usr/bin/tool/x"}
+	missing = append(missing, "made", "made/a/b", "srv/data/new", "opt/x/y/z", "lnk/viarel", "alnk/sub/viaabs", "alnk/newdir/f", "etc/new.conf", "dang/x", "flnk/x", "usr/bin/tool/x")
 	return
 }
 
@@ -235,7 +249,43 @@ var accountsGroupLines = []string{
 	"grp0:x:501:user0",
 }
 
+// accountsGenAlias: etc/group and etc/passwd are one node (a hard link, or a symbolic link from one name to the
+// other).  The two goroutines of mutateAccounts then work on one file (C13.aliased_schedules_differ); what the real
+// code does is observed and judged by the oracle alone.
+func accountsGenAlias(r *Rng) accountsCase {
+	c := accountsCase{Kind: "alias"}
+	ops := []fsOp{{K: "mkdirall", P: "etc", N: 0o755}}
+	content := ""
+	if r.Chance(30) {
+		content = "root:x:0:0:root:/root:/bin/ash\n"
+	}
+	first, second := "etc/passwd", "etc/group"
+	if r.Bool() {
+		first, second = second, first
+	}
+	ops = append(ops, fsOp{K: "writefile", P: first, D: content, N: 0o644})
+	switch r.Intn(3) {
+	case 0:
+		ops = append(ops, fsOp{K: "link", Q: first, P: second})
+	case 1:
+		ops = append(ops, fsOp{K: "symlink", Q: path.Base(first), P: second}) // joined to the traversed prefix etc
+	default:
+		ops = append(ops, fsOp{K: "symlink", Q: "/" + first, P: second})
+	}
+	c.Setup = ops
+	for k := 0; k < r.Range(1, 3); k++ {
+		c.Users = append(c.Users, accountsUser{Name: fmt.Sprintf("al%d", k), UID: uint32(1000 + k), Home: Pick(r, []string{"/dev/null", "", "/home/shared"})})
+	}
+	for k := 0; k < r.Range(1, 2); k++ {
+		c.Groups = append(c.Groups, accountsGroup{Name: fmt.Sprintf("ag%d", k), GID: uint32(2000 + k), Members: [][]string{nil, {"al0"}}[r.Intn(2)]})
+	}
+	return c
+}
+
 func accountsGenAccounts(r *Rng, tier string) accountsCase {
+	if r.Chance(6) {
+		return accountsGenAlias(r)
+	}
 	c := accountsCase{Kind: "accounts"}
 	var ops []fsOp
 	mk := func(p string, perm int) { ops = append(ops, fsOp{K: "mkdirall", P: p, N: perm}) }
@@ -292,6 +342,9 @@ func accountsGenAccounts(r *Rng, tier string) accountsCase {
 	nu := r.Intn(4)
 	if tier == "thorough" {
 		nu = r.Intn(6)
+	}
+	if r.Chance(7) {
+		nu = r.Range(8, 14) // a large account list
 	}
 	names := []string{"user0", "user1", "app", "nobody", "root", "svc-x", "u_2"}
 	homes := []string{"", "", "/home/app", "/var/lib/app/deep/er", "/dev/null", "/srv/data", "/srv/afile", "/lnk", "/lnk/home1", "/dang", "/dang/x",
